@@ -43,6 +43,23 @@ SNext ==
 SSpec == SInit /\ [][SNext]_svars
 SPrint == Len(prog) < Depth \/ PrintT(ToJson([scanprog |-> prog]))
 
+\* Exhaustive generator for small collections (tlc in model-checking mode): EVERY interleaving of additions,
+\* removals and single-bucket SCAN calls of length Depth over N elements - including the ones that empty the
+\* collection in the middle of an iteration.  The first and the last operation are SCAN calls.
+ENext ==
+    /\ Len(prog) < Depth
+    /\ \E st \in {[op |-> "add", e |-> e] : e \in Elems \ present} \cup {[op |-> "del", e |-> e] : e \in present}
+                   \cup {[op |-> "step", count |-> c] : c \in Counts} :
+          /\ (Len(prog) = Depth - 1 => st.op = "step")
+          /\ prog' = Append(prog, st)
+          /\ present' = CASE st.op = "add" -> present \cup {st.e}
+                          [] st.op = "del" -> present \ {st.e}
+                          [] OTHER -> present
+    /\ UNCHANGED mode
+EInit == \E p \in {Elems, {}} : present = p /\ prog = <<>> /\ mode = (IF p = {} THEN "empty" ELSE "full")
+ESpec == EInit /\ [][ENext]_svars
+EEmit == (Len(prog') = Depth /\ \E j \in 1..(Depth - 1) : prog'[j].op = "step") => PrintT(ToJson([scanprog |-> prog', init |-> mode]))
+
 -----------------------------------------------------------------------------
 (* Judge of recorded histories.  A history: [ev |-> <<events>>, budget |-> n]; events
    [op |-> "add"/"del", e], [op |-> "call", cin, cout, items |-> <<e...>>, match |-> set of e the filter admits] *)
